@@ -149,4 +149,30 @@ def deco_new_from_generator_wrapper_signature : List String := ["self", "*args",
 /-- the calls of dataiter/deco.py: new_from_generator.wrapper in the order Python makes them along the source text -/
 def deco_new_from_generator_wrapper_call_order : List String := ["function", "self._new"]
 
+/-- dataiter/list_of_dicts.py: ListOfDicts.copy (sha256 of the function source: 137155dde933b202) -/
+def ListOfDicts_copy2 (truth : Term → Bool) : Out :=
+  Out.ret [] (Term.app ".__copy__" [(Term.sym "self")])
+
+/-- the decorators of dataiter/list_of_dicts.py: ListOfDicts.copy, outermost first -/
+def ListOfDicts_copy2_decorators : List String := []
+
+/-- the signature of dataiter/list_of_dicts.py: ListOfDicts.copy: parameters in order, with the source text of their defaults -/
+def ListOfDicts_copy2_signature : List String := ["self"]
+
+/-- the calls of dataiter/list_of_dicts.py: ListOfDicts.copy in the order Python makes them along the source text -/
+def ListOfDicts_copy2_call_order : List String := ["self.__copy__"]
+
+/-- dataiter/list_of_dicts.py: ListOfDicts.deepcopy (sha256 of the function source: fcbd6f8670eb6bd1) -/
+def ListOfDicts_deepcopy2 (truth : Term → Bool) : Out :=
+  Out.ret [] (Term.app ".__deepcopy__" [(Term.sym "self")])
+
+/-- the decorators of dataiter/list_of_dicts.py: ListOfDicts.deepcopy, outermost first -/
+def ListOfDicts_deepcopy2_decorators : List String := []
+
+/-- the signature of dataiter/list_of_dicts.py: ListOfDicts.deepcopy: parameters in order, with the source text of their defaults -/
+def ListOfDicts_deepcopy2_signature : List String := ["self"]
+
+/-- the calls of dataiter/list_of_dicts.py: ListOfDicts.deepcopy in the order Python makes them along the source text -/
+def ListOfDicts_deepcopy2_call_order : List String := ["self.__deepcopy__"]
+
 end DI.Gen
